@@ -507,6 +507,12 @@ func (g *gen) entryCount() int {
 		if g.cfg.SizeProf == 2 {
 			return 2
 		}
+		if t.Choose(6) == 0 {
+			// very many tiny entries in one message (a follower caught up in
+			// replicate state): around and beyond the decoders' preallocation caps
+			g.c.Probe("message_with_1000plus_entries")
+			return []int{1023, 1024, 1025, 1026, 2048, 2049, 3000}[t.Choose(7)]
+		}
 		return 64 + t.Choose(240)
 	}
 }
